@@ -5,8 +5,14 @@ use super::queue_state::*;
 use super::wake_thread::*;
 
 use std::fmt;
+#[cfg(not(logicalshift_desync_verif))]
 use std::sync::*;
+#[cfg(logicalshift_desync_verif)]
+use desync_verif_rt::sync::*;
+#[cfg(not(logicalshift_desync_verif))]
 use std::thread;
+#[cfg(logicalshift_desync_verif)]
+use desync_verif_rt::thread;
 use std::collections::vec_deque::*;
 
 use futures::task;
@@ -209,5 +215,26 @@ impl JobQueue {
         } else {
             JobStatus::NoJobsWaiting
         }
+    }
+}
+
+#[cfg(logicalshift_desync_verif)]
+impl JobQueue {
+    /// Verification-only: (state tag, queued jobs, registered sync waiters), or None if the queue lock is held
+    pub fn verif_peek(&self) -> Option<(u8, usize, usize)> {
+        self.core.verif_peek(|core| {
+            let state = match core.state {
+                QueueState::Idle                => 0,
+                QueueState::Pending             => 1,
+                QueueState::Running             => 2,
+                QueueState::WaitingForWake      => 3,
+                QueueState::WaitingForUnpark    => 4,
+                QueueState::WaitingForPoll(_)   => 5,
+                QueueState::AwokenWhileRunning  => 6,
+                QueueState::Panicked            => 7,
+            };
+
+            (state, core.queue.len(), core.wake_blocked.len())
+        })
     }
 }
